@@ -29,8 +29,11 @@ Proof.
 Qed.
 
 Theorem roundtrip_time_262144 : forall d, 0 <= d < 262144 ->
-  param_32 (time_raw (time_logical (z2f d))) = d.
-Proof. lift 262144%positive time_ok sweep_time_true. apply Z.eqb_eq in Hs. exact Hs. Qed.
+  param_32 (time_raw (time_logical (z2f d))) = d /\ param_32 (z2f d) = d.
+Proof.
+  lift 262144%positive time_ok sweep_time_true. unfold time_ok in Hs.
+  apply andb_prop in Hs. destruct Hs as [H1 H2]. apply Z.eqb_eq in H1, H2. auto.
+Qed.
 
 (* components of the round trip depend on their own component only *)
 Lemma rt_components : forall a b c d,
